@@ -36,6 +36,10 @@ CHECKS = {
    text="Concurrent Collect* calls for many users (anonymous, named, first seen mid-run) racing with Snapshot/SnapshotAndReset under the race detector, with a conservation / total==anonymous+users / monotonicity oracle over all snapshots; real management API server over the collector compared per server and per user with the collector's own figures.",
    note="Sampled schedules (distinct outcome vectors counted); integration with socket-level traffic is left to C11/C13.",
    tech="runtime monitoring: conservation oracle over recorded snapshot histories + API projection comparison (race detector)"),
+ "C20": dict(cat="fault_enumeration",
+   text="Child processes run the real credential manager and are cut off by RLIMIT_FSIZE=k (write error EFBIG, or death by SIGXFSZ) for EVERY k in 0..len(document)+1 of the save, for several store sizes and operations; the parent reloads the file with a fresh manager (must be the old or the new set; after a failed save memory keeps the new set and a later save repairs the file). Shutdown phases of the save debounce (queued, picked up, cooling down, at hook points before/after the save with late changes) are walked on a virtual clock: after Stop the file holds the acknowledged set.",
+   note="Crash = process death / write error; kernel page-cache loss (power failure) is not modelled. Hook-directed phases need the verif build tag.",
+   tech="runtime monitoring: exhaustive crash-point injection in child processes + hook-directed shutdown schedules (synctest)"),
 }
 
 PENDING_DEFAULT = "check under construction in this session (design in DESIGN.md §4); not claimed until its monitor runs clean on the unchanged tree"
